@@ -85,6 +85,14 @@ def run(prog, R):
                     if not (isinstance(ee, tuple) and (ee[0] == "un" or ee[0] == "c")):
                         bad.append(("Float", show(ee)))
         R.ob("C11.2-flags-set-by-scanner", "number(): empty_int iff the digit scanner after a radix prefix found no digit", not bad and n >= 10, num.at, f"{n} literal-returning paths; {bad[:3]}")
+    # ... and eat_float_exponent reports whether a *digit* followed the marker (and optional sign): its result on every
+    # returning path is the result of the digit scanner, not "something was consumed" (a lone sign, `1e+`, is no exponent)
+    fe_ = R.anchor(prog, "oq3_lexer::Cursor::eat_float_exponent")
+    if fe_:
+        rets_ = sorted({show(deep_strip(p.env.get(0))) for p in SymExec(prog, fe_, max_visits=1).paths() if "__diverged__" not in p.env})
+        okfe = bool(rets_) and all(r_.startswith(("eat_decimal_digits(", "eat_hexadecimal_digits(")) and r_.count("(") == r_.count("self") for r_ in rets_)
+        R.ob("C11.2-flags-set-by-scanner", "eat_float_exponent(): true iff the digit scanner met a digit after the marker and sign", okfe, fe_.at,
+             f"returns {rets_}" if okfe else f"returns {[r_[:120] for r_ in rets_]}: the result is not the digit scanner's, so an exponent marker followed by a sign and no digit (`1e+`, `.5e-`) clears empty_exponent and gets no lexical diagnostic")
     import scanners
     scanners.check(prog, R, "C11.2-digit-scanners")
     scanners.exponent_markers(prog, R, "C11.2-exponent-markers")
